@@ -166,8 +166,9 @@ def post_add_column(self, expression, column, OLD, result):
 def post_values(self, expression, result):
     _c('values_from_database')
     # (the logit expressions call this method internally while another operation is running)
-    exp = EXPECT.pop('values', None) if (EXPECT.get('values') or {}).get('column', 0) is None else None
+    exp = EXPECT.pop('values', None) if (EXPECT.get('values') or {}).get('expression_id') == id(expression) else None
     if exp is not None:
+        _c('values_from_database_with_reference_values')
         ok, why = _values_close(result, exp['ref'], exp['tol'])
         if not ok:
             _v('values-from-database-differ-from-formula', why)
